@@ -326,7 +326,7 @@ class GFIVmap(Contract):
 
 class _ScanBase(Contract):
     def replay(self, case, clause, model, path):
-        return battery_replay("scan_regenerate")
+        return battery_replay("scan_regenerate", "scan_python_int_carry")
 
     cases = ["args_only", "with_kwargs"]
 
@@ -334,8 +334,10 @@ class _ScanBase(Contract):
         eng = engine()
         self.T = fresh("T", z3.IntSort())
         eng.assume(self.T >= 0)
-        self.g = AbsGF("h", pair_retval=True, discard_kind=getattr(self, "discard_kind", "value"))
-        self.init = value("init")
+        self.g = AbsGF("h", pair_retval=True, discard_kind=getattr(self, "discard_kind", "value"), carry_kind="float" if "python_int_initial_carry" in case else None)
+        # "python_int_initial_carry": Scan(step)(0, xs) with a step that hands back a FLOAT carry - JAX promotes the weakly
+        # typed 0, so it is the same model as starting from 0.0: nothing may be truncated to an integer
+        self.init = 0 if "python_int_initial_carry" in case else value("init")
         self.xs = vec("xs", self.T)
         self.args = (self.init, self.xs)
         self.kwargs = {"kw": value("kw")} if "with_kwargs" in case else {}
@@ -357,7 +359,8 @@ class _ScanBase(Contract):
         t = rec["t"]
         new = rec["new_carry"]
         a_t = self.a_step(rec, t)
-        return isinstance(new, Sym) and same(new, Sym(FstV(self.g.R(a_t, x_at(t)))))
+        r = self.g.R(a_t, x_at(t))
+        return isinstance(new, Sym) and same(new, Sym(self.g.CarryF(r) if self.g.carry_kind == "float" else FstV(r)))
 
     def old_trace(self):
         T, g = self.T, self.g
@@ -388,6 +391,8 @@ class _ScanBase(Contract):
 
 @contract("genjax.core:Scan.simulate", ["C01"])
 class ScanSimulate(_ScanBase):
+    cases = _ScanBase.cases + ["args_only:python_int_initial_carry_float_step_carry"]
+
     def call(self, case):
         self.mk(case)
         return self.real(self.fn, self.sc, *self.args, **self.kwargs)
@@ -408,6 +413,8 @@ class ScanSimulate(_ScanBase):
 
 @contract("genjax.core:Scan.assess", ["C01"])
 class ScanAssess(_ScanBase):
+    cases = _ScanBase.cases + ["args_only:python_int_initial_carry_float_step_carry"]
+
     def call(self, case):
         self.mk(case)
         self.x = vec("x", self.T)
